@@ -12,14 +12,15 @@ Trusted conventions of the translation (the Coq theorem is about the translated 
   alias x (names connected by assignments whose right-hand side is a view / container of the other: plain names, subscripts, tuples,
   CPTensor / TuckerTensor / list / .copy() / transpose / reshape / unfold ...);
 * a `return a, b` returns the decomposition in its first component;
-* `assume_true`: tests of `if` statements (source text) taken as true for the analysed configuration: only the body is translated
-  (e.g. `mode in nn_modes` for nn_modes='all'); an assumption that matches no `if` is reported (stale specialisation)."""
+* `assume_true` / `assume_false`: tests of `if` statements (source text) fixed for the analysed configuration: only the body (spliced into
+  the enclosing block) / only the else branch is translated (e.g. `mode in nn_modes` for nn_modes='all', `V is None` false for a warm
+  start); an assumption that matches no `if` is reported (stale specialisation)."""
 import ast
 
 FN = {"hals_nnls": "FHalsNnls", "fista": "FFista", "active_set_nnls": "FActiveSet", "cp_normalize": "FCpNormalize",
       "tucker_normalize": "FTuckerNormalize", "initialize_cp": "FInitCp", "initialize_tucker": "FInitTucker"}
 PASS_THROUGH = {"transpose", "reshape", "copy", "conj", "unfold", "tensor_to_vec", "vec_to_tensor", "tensor", "list", "tuple", "CPTensor", "TuckerTensor",
-                "enumerate", "reversed", "sorted", "fold", "moveaxis", "to_numpy", "index_update"}
+                "enumerate", "reversed", "sorted", "fold", "moveaxis", "to_numpy", "max", "min"}
 COPIES = {"copy"}            # tl.copy: a new array, no aliasing (x.copy() on a list is shallow: treated as aliasing)
 POLY = {"dot", "matmul", "mode_dot", "multi_mode_dot", "tucker_to_tensor", "tucker_to_unfolded", "cp_to_tensor", "cp_to_unfolded", "kronecker",
         "khatri_rao", "unfolding_dot_khatri_rao", "sum", "inner", "outer", "tensordot", "einsum", "trace"}
@@ -79,7 +80,7 @@ def _assigned_names(node):
 
 
 class Translator:
-    def __init__(self, fdef, param_signs, assume_true=()):
+    def __init__(self, fdef, param_signs, assume_true=(), assume_false=()):
         self.fdef = fdef
         self.vars = {}              # (name, version) -> id ; version "all" or int
         self.order = []
@@ -88,6 +89,7 @@ class Translator:
         self.returns = []
         self.alias = {}             # union-find over names
         self.assume = {a: 0 for a in assume_true}
+        self.assume_f = {a: 0 for a in assume_false}
         self.unknown_calls = {}
         self.params = []
         a = fdef.args
@@ -178,8 +180,7 @@ class Translator:
         name = _dotted(e.func)
         short = name.split(".")[-1]
         kw = {k.arg: k.value for k in e.keywords if k.arg is not None}
-        if any(k.arg is None for k in e.keywords):
-            return "XAny"
+        star_kw = any(k.arg is None for k in e.keywords) or any(isinstance(x, ast.Starred) for x in e.args)
         args = list(e.args)
         def arg(i, key):
             if key in kw:
@@ -190,6 +191,8 @@ class Translator:
         def nonneg_literal(x):
             return isinstance(x, ast.Constant) and isinstance(x.value, (int, float)) and not isinstance(x.value, bool) and x.value >= 0
         is_method = isinstance(e.func, ast.Attribute) and not name.startswith(("tl.", "tensorly.", "T."))
+        if star_kw and (short in FN or short in ("clip", "where", "index_update")):
+            return "XAny"                               # the keyword arguments that matter cannot be read off the source
         if short == "clip":
             x, lo, hi = arg(0, "a"), arg(1, "a_min"), arg(2, "a_max")
             if x is None or lo is None or (hi is not None and not (isinstance(hi, ast.Constant) and hi.value is None)):
@@ -197,6 +200,18 @@ class Translator:
             return f"(XClip {T(lo)} {T(x)})"
         if short == "abs":
             return f"(XAbs {T(args[0])})" if args else "XAny"
+        if short == "index_update":                     # the result holds entries of the array and of the new values
+            if len(args) != 3:
+                return "XAny"
+            return f"(XSub (XPair {T(args[0])} {T(args[2])}))"
+        if short == "where":                            # tl.where(x < e, e, x) = maximum(x, e); otherwise one of the two branches
+            if len(args) != 3:
+                return "XAny"
+            c, a, b = args
+            if isinstance(c, ast.Compare) and len(c.ops) == 1 and isinstance(c.ops[0], (ast.Lt, ast.LtE)) \
+                    and ast.dump(c.left) == ast.dump(b) and ast.dump(c.comparators[0]) == ast.dump(a):
+                return f"(XClip {T(a)} {T(b)})"
+            return f"(XSub (XPair {T(a)} {T(b)}))"
         if short in POS_CALLS:
             return "XPos"
         if short in NONNEG_CALLS:
@@ -259,6 +274,8 @@ class Translator:
         if isinstance(e, ast.Call):
             name = _dotted(e.func)
             short = name.split(".")[-1]
+            if short == "index_update" and e.args:
+                return self.alias_names(e.args[0])
             if short in PASS_THROUGH:
                 if short in COPIES and name.startswith(("tl.", "tensorly.")):
                     return set()
@@ -352,9 +369,12 @@ class Translator:
                 self.nested(s, [s.body, s.orelse], cur)
         elif isinstance(s, ast.If):
             src = ast.unparse(s.test)
-            if src in self.assume:
+            if src in self.assume:                      # taken as true: the body always runs, it is part of the enclosing block
                 self.assume[src] += 1
-                self.nested(s, [s.body], cur)
+                self.block(s.body, cur)
+            elif src in self.assume_f:
+                self.assume_f[src] += 1
+                self.block(s.orelse, cur)
             else:
                 self.nested(s, [s.body, s.orelse], cur)
         elif isinstance(s, ast.With):
@@ -392,9 +412,9 @@ class Translator:
                                                      ast.NamedExpr, ast.Delete, ast.Yield, ast.YieldFrom, ast.Await)):
                 raise Untranslatable(type(n).__name__ + " at line " + str(getattr(n, "lineno", "?")))
         self.block(self.fdef.body, {})
-        stale = [a for a, n in self.assume.items() if n == 0]
+        stale = [a for a, n in list(self.assume.items()) + list(self.assume_f.items()) if n == 0]
         if stale:
-            raise Untranslatable("assumed-true test(s) not found in the source: " + "; ".join(stale))
+            raise Untranslatable("assumed test(s) not found in the source: " + "; ".join(stale))
         if not self.returns:
             raise Untranslatable("no return statement")
         # expand the updates over alias classes and versions
@@ -428,9 +448,9 @@ def nat_list(xs):
     return "[" + "; ".join(f"{x}%nat" for x in xs) + "]" if xs else "(@nil nat)"
 
 
-def translate_function(source, fname, param_signs, assume_true=()):
+def translate_function(source, fname, param_signs, assume_true=(), assume_false=()):
     tree = ast.parse(source)
     for n in tree.body:
         if isinstance(n, ast.FunctionDef) and n.name == fname:
-            return Translator(n, param_signs, assume_true).run()
+            return Translator(n, param_signs, assume_true, assume_false).run()
     raise Untranslatable(f"function {fname} not found")
